@@ -204,3 +204,21 @@ func checkC19(c *Ctx, r *rep.Report) {
 		ruleMagnitudes(r, p, "modm")
 	}
 }
+
+// scalarLayer runs the structural rules of the scalar package on every configuration of the tier; the root-package
+// properties whose statements involve "mod L" (C01-C04) include it because their anchors do.
+func scalarLayer(c *Ctx, r *rep.Report) {
+	for _, cfg := range c.Configs() {
+		if cfg == "amd64-noasm" {
+			continue // same scalar files as amd64-default
+		}
+		p, _ := c.mustLoad(r, cfg)
+		if p == nil {
+			continue
+		}
+		ruleScalarConstants(r, p)
+		ruleUnrolledChains(r, p)
+		ruleExpandLengths(r, p)
+		ruleBitOrigin(r, p, "modm")
+	}
+}
